@@ -1,0 +1,17 @@
+package utils
+
+import "sort"
+
+// SortedKeys returns the keys of the map in ascending order. Ranging over
+// them instead of over the map gives a deterministic iteration order
+func SortedKeys[V any](m map[string]V) []string {
+	keys := make([]string, 0, len(m))
+
+	for key := range m {
+		keys = append(keys, key)
+	}
+
+	sort.Strings(keys)
+
+	return keys
+}
